@@ -61,15 +61,60 @@ func c02StrBack(s string) int64 {
 // ---- reflection helpers on *SkipList[K,V] / *SkipListWithCmp[K,V]
 var c02HookOK = true // false when the private fields could not be found: heights are then not compared
 
+// fields are found by type (names are hints, harness/fields.go): rand = the *rand.Rand field; head = the field that is a
+// node (a struct with a slice of pointers to itself) or a pointer to one; next = that slice; level = the int field that
+// reads 1 on a list made by the constructor (len reads 0)
 func c02Field(ptr interface{}, name string) (v reflect.Value, ok bool) {
 	defer func() {
 		if recover() != nil {
 			ok = false
 		}
 	}()
-	e := reflect.ValueOf(ptr).Elem()
-	f := e.FieldByName(name)
-	return f, f.IsValid()
+	return c02FieldV(reflect.ValueOf(ptr).Elem(), name)
+}
+func c02FieldV(e reflect.Value, name string) (v reflect.Value, ok bool) {
+	defer func() {
+		if recover() != nil {
+			ok = false
+		}
+	}()
+	t := e.Type()
+	isNode := func(nt reflect.Type) bool {
+		if nt.Kind() == reflect.Ptr {
+			nt = nt.Elem()
+		}
+		if nt.Kind() != reflect.Struct {
+			return false
+		}
+		for i := 0; i < nt.NumField(); i++ {
+			ft := nt.Field(i).Type
+			if ft.Kind() == reflect.Slice && ft.Elem().Kind() == reflect.Ptr && ft.Elem().Elem() == nt {
+				return true
+			}
+		}
+		return false
+	}
+	var f reflect.StructField
+	switch name {
+	case "rand":
+		f, ok = PickField(t, []string{"rand", "rnd", "rng"}, func(g reflect.StructField) bool { return g.Type == reflect.TypeOf((*rand.Rand)(nil)) })
+	case "head":
+		f, ok = PickField(t, []string{"head", "root"}, func(g reflect.StructField) bool { return isNode(g.Type) })
+	case "next":
+		f, ok = PickField(t, []string{"next", "forward", "tower"}, func(g reflect.StructField) bool {
+			return g.Type.Kind() == reflect.Slice && g.Type.Elem().Kind() == reflect.Ptr && g.Type.Elem().Elem() == t
+		})
+	case "level":
+		f, ok = PickField(t, []string{"level", "height"}, func(g reflect.StructField) bool {
+			return g.Type.Kind() == reflect.Int && !strings.Contains(strings.ToLower(g.Name), "len") && g.Name != "size" && g.Name != "count" && g.Name != "n"
+		})
+	default:
+		f, ok = t.FieldByName(name)
+	}
+	if !ok {
+		return reflect.Value{}, false
+	}
+	return e.FieldByIndex(f.Index), true
 }
 func c02Inject(ptr interface{}, src *c02Script) bool {
 	f, ok := c02Field(ptr, "rand")
@@ -84,8 +129,14 @@ func c02IsZero(ptr interface{}) bool { // s.head.next == nil
 	if !ok {
 		return false
 	}
-	n := h.FieldByName("next")
-	return n.IsValid() && n.Kind() == reflect.Slice && n.IsNil()
+	if h.Kind() == reflect.Ptr {
+		if h.IsNil() {
+			return true
+		}
+		h = h.Elem()
+	}
+	n, ok := c02FieldV(h, "next")
+	return ok && n.Kind() == reflect.Slice && n.IsNil()
 }
 func c02Level(ptr interface{}) int64 {
 	f, ok := c02Field(ptr, "level")
@@ -570,7 +621,9 @@ type c02B struct {
 	codes map[int64]bool
 }
 
-func c02New(kind int64) *c02B { return &c02B{kind: kind, mem: map[int64]bool{}, codes: map[int64]bool{}} }
+func c02New(kind int64) *c02B {
+	return &c02B{kind: kind, mem: map[int64]bool{}, codes: map[int64]bool{}}
+}
 func (b *c02B) op(code, a, x, c int64) {
 	b.ops = append(b.ops, code, a, x, c)
 	b.codes[code] = true
